@@ -143,7 +143,7 @@ def judge_preset(case):
     from dznpy.adv_shell.types import AdvShellError  # pylint: disable=import-outside-toplevel
     from dznpy.scoping import ns_ids_t  # pylint: disable=import-outside-toplevel
     name, ssel, msel, with_mc = case['preset'], case.get('sts'), case.get('mts'), case.get('mc')
-    prov, req, inj = ['a', 'b'], ['x', 'y', 'z'], ['i']
+    prov, req, inj = ['a', 'b'], ['x', 'y', 'z'], ['i']   # (preset family: its own fixed names)
     want_p = {'all_mts': 'MTS', 'all_sts': 'STS', 'all_sts_all_mts': 'STS', 'all_mts_all_sts': 'MTS',
               'all_mts_mixed_ts': 'MTS', 'all_sts_mixed_ts': 'STS'}[name]
     if name in ('all_mts', 'all_sts_all_mts'):
@@ -212,8 +212,9 @@ def preset_cases():
 
 
 def universes(thorough):
-    own_p = ['a', 'b', 'c', 'd'] if thorough else ['a', 'b', 'c']
-    own_r = ['x', 'y', 'z', 'w'] if thorough else ['x', 'y', 'z']
+    # names with numbers whose numeric and string order differ (a2 / a10), and a name that is a prefix of another
+    own_p = ['a2', 'a10', 'a', 'd'] if thorough else ['a2', 'a10', 'a']
+    own_r = ['x2', 'x10', 'x', 'w'] if thorough else ['x2', 'x10', 'x']
     return own_p, own_r
 
 
